@@ -19,11 +19,14 @@ SIG_RAW = 'C15:scbuiltin_raw_selector'
 # operator tables: name -> Coq term of the numeric operator
 
 PY1 = {'neg': 'nneg', 'abs': 'nabs'}
-PY2 = {'add': 'nadd', 'sub': 'nsub', 'mul': 'nmul', 'truediv': 'ntruediv', 'floordiv': 'nfloordiv',
+DEFAULT2 = {'round': 1, 'roundup': 1, 'trunc': 1, 'max': 0}     # bi.round(x, quant=1) / .round(other=1) / .max(other=0)
+PY2 = {'pow': 'npow', 'lshift': 'nshl', 'rshift': 'nshr', 'and_': 'nbitand', 'or_': 'nbitor',
+       'add': 'nadd', 'sub': 'nsub', 'mul': 'nmul', 'truediv': 'ntruediv', 'floordiv': 'nfloordiv',
        'pymod': 'py_mod',            # AbstractObject.__mod__/__rmod__ compose bi.mod
        'lt': '(cmp nlt)', 'le': '(cmp nle)', 'gt': '(cmp ngt)', 'ge': '(cmp nge)',
        'eq': '(cmp neqb)', 'ne': '(cmp nneqb)'}
-PYSYM = {'add': '+', 'sub': '-', 'mul': '*', 'truediv': '/', 'floordiv': '//', 'pymod': '%',
+PYSYM = {'pow': '**', 'lshift': '<<', 'rshift': '>>', 'and_': '&', 'or_': '|',
+         'add': '+', 'sub': '-', 'mul': '*', 'truediv': '/', 'floordiv': '//', 'pymod': '%',
          'lt': '<', 'le': '<=', 'gt': '>', 'ge': '>=', 'eq': '==', 'ne': '!='}
 def no_method():
     """builtins that are not AbstractObject methods (div, mod: only the % operator)"""
@@ -34,7 +37,9 @@ def no_method():
 INEXACT1 = {'distort', 'softclip'}   # contain a true division: only applied to safe leaf values
 SAFE = {'distort': [0, 1, -1, 3, -3, 7, Fraction(1), Fraction(-3)],
         'softclip': [1, 2, -1, -2, 4, Fraction(1, 4), Fraction(1, 2), Fraction(-1, 2), Fraction(2)],
-        'truediv': [1, 2, -2, 4, -1, Fraction(1, 2), Fraction(-1, 4), Fraction(2), 8]}
+        'truediv': [1, 2, -2, 4, -1, Fraction(1, 2), Fraction(-1, 4), Fraction(2), 8],
+        'pow': [0, 1, 2, 3], 'lshift': [0, 1, 2, 5], 'rshift': [0, 1, 2, 5]}
+INTONLY = {'lshift', 'rshift', 'and_', 'or_'}
 
 HEADER = '''From Coq Require Import ZArith QArith List Bool. Import ListNotations.
 Require Import SC3.lib.PyNum SC3.gen.Gen_builtins SC3.model.ListAlg SC3.model.Lift.
@@ -42,6 +47,16 @@ Definition cmp (f : num -> num -> bool) : num -> num -> num :=
   fun a b => match a, b with NErr, _ | _, NErr => NErr | _, _ => I (if f a b then 1 else 0) end.
 Definition o3 (f : num -> num -> num -> num) : num -> list num -> num :=
   fun x l => match l with [a; b] => f x a b | _ => NErr end.
+(* int ** small non-negative int, dyadic float ** small non-negative int (the generator uses only these) *)
+Definition npow (a b : num) : num :=
+  match a, b with
+  | I x, I y => if (y <? 0)%Z then NErr else I (Z.pow x y)
+  | F q, I y => if (y <? 0)%Z then NErr else F (Qpower q y)
+  | _, _ => NErr
+  end.
+(* blend(a, b, frac=0.5) called with one extra argument *)
+Definition o3d (f : num -> num -> num -> num) (d : num) : num -> list num -> num :=
+  fun x l => match l with [a; b] => f x a b | [a] => f x a d | _ => NErr end.
 Definition mkp (ps : list (nat * option num)) (ks : list num) (c : num) : prim :=
   {| p_params := ps; p_coef := ks; p_const := c |}.
 Definition FUEL := 60%nat.
@@ -93,19 +108,32 @@ def arities():
 # numbers
 
 def nd(v):
-    """python int / Fraction -> numdesc"""
+    """python bool / int / Fraction -> numdesc"""
+    if isinstance(v, bool):
+        return ['B', str(int(v))]
     return ['I', str(v)] if isinstance(v, int) else ['F', str(v)]
 
 
 def nval(d):
+    if d[0] == 'B':
+        return bool(int(d[1]))
     return int(d[1]) if d[0] == 'I' else Fraction(d[1])
 
 
 def cnum(d):
+    if d[0] == 'B':
+        return '(I %s)' % cz(d[1])          # bool is an int for Python's own operators
     return '(I %s)' % cz(d[1]) if d[0] == 'I' else '(F %s)' % cq(Fraction(d[1]))
 
 
+NUMMODE = {'mode': None}      # None | 'int' | 'falsy'  (set by the generator family)
+
+
 def rnd_num(rng, nonzero=False):
+    if NUMMODE['mode'] == 'int':
+        return rng.randint(-6, 6)
+    if NUMMODE['mode'] == 'falsy':
+        return rng.choice([0, 0, Fraction(0), False, False, True, 1, -1, Fraction(1, 2)])
     while True:
         if rng.random() < 0.55:
             v = rng.randint(-6, 6)
@@ -116,7 +144,7 @@ def rnd_num(rng, nonzero=False):
 
 
 def pynum(v):
-    return repr(v) if isinstance(v, int) else repr(float(v))
+    return repr(v) if isinstance(v, (bool, int)) else repr(float(v))
 
 
 # ---------------------------------------------------------------------------
@@ -147,6 +175,8 @@ class Gen:
 
     def fn(self, pool=None):
         rng = self.rng
+        if self.fns and pool is None and rng.random() < 0.2:
+            return ['fn', rng.randrange(len(self.fns))]      # the SAME Function object again (f + f, f.clip(f, f))
         if not self.kwmode:
             if pool:
                 k, c = 0, rng.choice(pool)
@@ -260,6 +290,8 @@ def coq_op(name, arity):
         return PY1.get(name) or 'py_' + name
     if arity == 2:
         return PY2.get(name) or 'py_' + name
+    if name == 'blend':
+        return '(o3d py_blend (F (1 # 2)))'
     return '(o3 py_%s)' % name
 
 
@@ -268,7 +300,7 @@ def coq_sel(name, arity, mode, fixed):
     # 'bi': bi.f(a, b) composes with the undecorated kernel; 'meth' and the % operator pass the
     # decorated builtin; other Python operators pass operator.<op>.  Repaired scbuiltin: the
     # decorated builtin everywhere, which always dispatches (= P)
-    if fixed or (mode == 'op' and name != 'pymod'):
+    if fixed or (mode == 'op' and name != 'pymod') or name == 'pow':     # .pow() composes operator.pow
         letter = 'P'
     else:
         letter = 'R' if mode == 'bi' else 'D'
@@ -283,6 +315,8 @@ def coq_expr(e, fixed=True):
         return '(EUn %s %s)' % (coq_sel(e[1], 1, e[2], fixed), coq_expr(e[3], fixed))
     if t == 'bin':
         return '(EBin %s %s %s)' % (coq_sel(e[1], 2, e[2], fixed), coq_expr(e[3], fixed), coq_expr(e[4], fixed))
+    if t == 'bin1':      # second argument defaulted by the wrapper (scbuiltin default_b / method default / __round__, __trunc__)
+        return '(EBin %s %s (ELeaf (ONum (I %s))))' % (coq_sel(e[1], 2, e[2], fixed), coq_expr(e[3], fixed), cz(DEFAULT2[e[1]]))
     if t == 'nar':
         return '(ENar %s %s [%s])' % (coq_sel(e[1], 3, e[2], fixed), coq_expr(e[3], fixed),
                                       '; '.join(coq_expr(i, fixed) for i in e[4]))
@@ -320,7 +354,8 @@ def coq_v(d):
 def txt_leaf(d, g):
     t = d[0]
     if t == 'num':
-        return pynum(nval(d[1:]))
+        v = nval(d[1:])
+        return '(%s)' % pynum(v) if v < 0 else pynum(v)      # (-5) ** x, not -5 ** x
     if t == 'fn':
         return 'Function(%s)' % fn_source(g['fns'][d[1]])
     if t == 'str':
@@ -342,9 +377,17 @@ def txt_expr(e, g):
         return txt_leaf(e[1], g)
     if t == 'un':
         a = txt_expr(e[3], g)
+        if e[2] == 'dunder':
+            return 'math.%s(%s)' % (e[1], a)
         if e[2] == 'op':
             return {'neg': '(-%s)', 'abs': 'abs(%s)'}[e[1]] % a
         return ('%s.%s()' % (a, e[1])) if e[2] == 'meth' else 'bi.%s(%s)' % (e[1], a)
+    if t == 'bin1':
+        a = txt_expr(e[3], g)
+        return {'dunder': ('round(%s)' if e[1] == 'round' else 'math.trunc(%s)') % a,
+                'meth': '%s.%s()' % (a, e[1]), 'bi': 'bi.%s(%s)' % (e[1], a)}[e[2]]
+    if t == 'bin' and e[2] == 'dunder':
+        return 'round(%s, %s)' % (txt_expr(e[3], g), txt_expr(e[4], g))
     if t == 'bin':
         a, b = txt_expr(e[3], g), txt_expr(e[4], g)
         if e[2] == 'op':
@@ -413,6 +456,8 @@ def top_kind(e):
     """kind of the object an expression builds: kind of the operand that composes"""
     if e[0] == 'leaf':
         return leaf_kind(e[1])
+    if e[0] == 'bin1':
+        return top_kind(e[3])
     if e[0] in ('pseq', 'pn'):
         return 'pat'
     if e[0] == 'bin':
@@ -448,7 +493,8 @@ def gen_cases(ctx, n_per):
         cases.append({'k': 'expr', 'pos': [nd(v) for v in g.pos], 'kw': [[n, nd(v)] for n, v in g.kw],
                       'fns': [{'params': [[n, None if d is None else nd(d)] for n, d in f['params']],
                                'coef': [nd(k) for k in f['coef']], 'c': nd(f['c'])} for f in g.fns],
-                      'e': e, 'shape': shape})
+                      'e': e, 'shape': shape,
+                      'twice': not (has_tag(e, 'str') or has_tag(e, 'pstr'))})
 
     def mode_for(left_is_abs, name, py):
         ms = ['bi'] if not py else ['op']
@@ -493,7 +539,8 @@ def gen_cases(ctx, n_per):
             return False
         return True
 
-    all2 = [(k, True) for k in PY2] + [(k, False) for k in bn]
+    SPECIAL2 = {'pow', 'lshift', 'rshift', 'and_', 'or_'}      # only in family 7b (controlled operand values)
+    all2 = [(k, True) for k in PY2 if k not in SPECIAL2] + [(k, False) for k in bn]
     all1 = [(k, True) for k in PY1] + [(k, False) for k in un]
     kinds = ['num', 'fn', 'str', 'pat', 'seqC', 'seqCf', 'seqL', 'seqT', 'operand']
 
@@ -679,6 +726,84 @@ def gen_cases(ctx, n_per):
             name = rng.choice(CMP5)
             e = binop_expr(g, name, True, e, ['leaf', g.fn()] if rng.random() < 0.6 else ['leaf', g.num()])
         finish(g, e, 'kwcall:%s:pos%d' % (e[0], len(g.pos)))
+
+    # 7. forms and edge values (bug-class review)
+    #  a. wrappers that supply a default second argument, and the dunder forms round() / math.trunc/floor/ceil
+    for _ in range(n_per * 16):
+        g = Gen(rng)
+        k = rng.choice(ABS_KINDS)
+        a = ['leaf', g.leaf(k)]
+        if rng.random() < 0.3:
+            n1, p1 = rng.choice([('add', True), ('sub', True), ('max', False)])
+            x1, y1 = operand_pair(g, k, rng.choice([k, 'num']), n1)
+            a = binop_expr(g, n1, p1, ['leaf', x1], ['leaf', y1])
+        r = rng.random()
+        if r < 0.45:
+            name = rng.choice(sorted(DEFAULT2))
+            mode = rng.choice(['meth', 'bi'] if name != 'max' else ['meth'])     # bi.max has no default
+            if name in ('round', 'trunc') and rng.random() < 0.35:
+                mode = 'dunder'
+            e = ['bin1', name, mode, a]
+        elif r < 0.6:
+            e = ['bin', 'round', 'dunder', a, ['leaf', g.num([1, 2, Fraction(1, 2), 4])]]   # round(a, quant)
+        elif r < 0.8:
+            e = ['un', rng.choice(['floor', 'ceil']), 'dunder', a]
+        else:
+            e = ['nar', 'blend', rng.choice(['bi', 'meth']) if k != 'seqC' else 'bi', a,
+                 [['leaf', g.leaf(k if k in ('fn', 'str', 'pat') else 'num')]]]        # frac defaults to 0.5
+        finish(g, e, 'forms:' + e[0] + ':' + k)
+    #  b. more non-commutative operators on every dispatch branch: ** << >> (and & |), plain / reflected / method
+    for _ in range(n_per * 14):
+        name = rng.choice(['pow', 'pow', 'lshift', 'rshift', 'and_', 'or_'])
+        NUMMODE['mode'] = 'int' if name in INTONLY else None
+        try:
+            g = Gen(rng)
+            g.x = rng.randint(-6, 6)          # an int argument: a constant function `c + 0*x` keeps the type of c
+            g.pos = [g.x]
+            k = rng.choice(ABS_KINDS)
+            r = rng.random()
+            ka, kb = (k, rng.choice([k, 'num'])) if r < 0.55 else ('num', k)
+            if name in INTONLY and 'fn' in (ka, kb):
+                ka, kb = ('pat', kb) if ka == 'fn' else (ka, 'pat')     # k*x+c with a float coefficient is not an int
+            a = g.leaf(ka)
+            b = g.leaf(kb, pool_for(name))
+            if has_tag(a, 'seq') and kb == 'str':
+                b = ['pat', b[1] or [nd(1)]]
+            if has_tag(b, 'seq') and ka == 'str':
+                a = ['pat', a[1] or [nd(1)]]
+            mode = 'op' if (ka == 'num' or rng.random() < 0.6 or name in ('and_', 'or_')) else 'meth'
+            e = ['bin', {'and_': 'and_', 'or_': 'or_'}.get(name, name) if mode == 'op' else
+                 {'pow': 'pow', 'lshift': 'lshift', 'rshift': 'rshift'}[name], mode, ['leaf', a], ['leaf', b]]
+            finish(g, e, 'ncops:%s:%s,%s' % (name, ka, kb))
+        finally:
+            NUMMODE['mode'] = None
+    #  c. falsy values everywhere: 0, 0.0, False (and True) as plain operands, function results, stream /
+    #     pattern items, list items, Operand(0), Rest(0); only Python's own operators (a bool takes the
+    #     kernels' float branch)
+    falsy_ops = ['add', 'sub', 'mul', 'floordiv', 'lt', 'le', 'gt', 'ge', 'eq', 'ne']
+    NUMMODE['mode'] = 'falsy'
+    try:
+        for _ in range(n_per * 16):
+            g = Gen(rng)
+            g.x = rng.choice([0, 0, Fraction(0), 1])
+            g.pos = [g.x]
+            name = rng.choice(falsy_ops)
+            ka = rng.choice(ABS_KINDS)
+            kb = rng.choice([ka, 'num', 'num'])
+            if rng.random() < 0.35:
+                ka, kb = 'num', ka
+            if not ok_pair(ka, kb, name):
+                continue
+            a, b = operand_pair(g, ka, kb, name)
+            for f in g.fns:                                  # function results 0 / 0.0 / False
+                if rng.random() < 0.6:
+                    f['coef'] = [0]
+            e = binop_expr(g, name, True, ['leaf', a], ['leaf', b])
+            if rng.random() < 0.25 and name not in CMP5:
+                e = ['un', rng.choice(['neg', 'abs']), 'op', e]
+            finish(g, e, 'falsy:' + ka + ',' + kb)
+    finally:
+        NUMMODE['mode'] = None
     return cases
 
 
@@ -845,6 +970,12 @@ def correspond_lift(ctx):
     for cd in (1, 4, 5):
         c.count('code%d(defect-shaped)' % cd, sum(1 for x in codes if x == cd))
     c.count('code2(mismatch)', sum(1 for x in codes if x == 2))
+    # model-free law probes run in the correspondence stage too (state, aliasing, exception and
+    # evaluation-order properties that the value model does not express)
+    lf, nprobes = law_probes(ctx, ctx.n(100, 600), 'correspondence')
+    c.failures.extend(lf)
+    c.evaluations += nprobes
+    c.count('law_probes', nprobes)
     nu = 0
     for k, o, cd in zip(ucases, uout, ucodes):
         if cd == 2 and nu < 5:
@@ -854,19 +985,23 @@ def correspond_lift(ctx):
     return c
 
 
-def search_lift(ctx, failures):
-    """Independent probe of the lifting laws on the implementation (no model involved):
-    the composed object's evaluation against the numeric operator applied to the separately
-    evaluated operands."""
-    res = ctx.impl('c15_lift_laws', {'seed': ctx.rng.randint(0, 1 << 30), 'n': ctx.n(300, 3000)}, timeout=600)
+def law_probes(ctx, n, kind):
+    """Independent probes of the lifting laws on the implementation (no model involved): the composed
+    object's evaluation against the numeric operator applied to the separately evaluated operands;
+    falsy values, raising operands, aliasing, evaluation order, agreement of the four call forms."""
+    res = ctx.impl('c15_lift_laws', {'seed': ctx.rng.randint(0, 1 << 30), 'n': n}, timeout=600)
     found = []
     seen = set()
     for b in res['bad']:
         if b['law'] in seen:
             continue
         seen.add(b['law'])
-        found.append(Failure('search', 'lifting law %s fails on the implementation: %s -> %s, expected %s' % (
+        found.append(Failure(kind, 'lifting law %s fails on the implementation: %s -> %s, expected %s' % (
             b['law'], b['expr'], b['got'], b['want']),
             signature={'narop_function_composed_args': SIG_F8, 'builtin_form_redispatches': SIG_RAW}.get(b['law'], 'C15:lift:' + b['law']),
             replay=b, found_input=True, theorem=b.get('theorem')))
-    return found
+    return found, res.get('probes', 0)
+
+
+def search_lift(ctx, failures):
+    return law_probes(ctx, ctx.n(300, 3000), 'search')[0]
